@@ -10,6 +10,9 @@ scenario = {
   'initializer': bool,
   'signal': None | {'how': 'interrupt'|'terminate'|'kill'|'send_signal', 'sig': 'SIGINT'|'SIGTERM'|'SIGKILL',
                     'when': 'boot'|'running'|'delay', 'delay': seconds after the worker's start marker},
+  'awaiters': 'storm' | None,    # further awaiters of the same handle: one new task awaiting it in EVERY loop iteration from the
+                                 # start of the function until the first awaiter has its result, one started when the process
+                                 # sentinel fires, three right after the first result, one 0.2 s later
   'timeout': seconds (default 25)
 }
 observation: see `observe` below.  Nothing is patched; `process._popen.returncode` is only READ
@@ -132,6 +135,54 @@ async def scenario(scn: dict, obs: dict, tmp: Path) -> None:
 
     waiter = asyncio.ensure_future(wait())
     sender = asyncio.ensure_future(send()) if sig else None
+    # ---- further awaiters of the same handle
+    aw = {'n': 0, 'n_raised': 0, 'raised': [], 'outcomes': [], 'times_bad': 0, 'phases': {}, 'closing': False}
+    extra: list = []
+
+    async def one(phase):
+        idx = aw['n']
+        aw['n'] += 1
+        aw['phases'][phase] = aw['phases'].get(phase, 0) + 1
+        try:
+            ex = await running
+        except BaseException as e:
+            if aw['closing']:
+                return
+            aw['n_raised'] += 1
+            if len(aw['raised']) < 5:
+                aw['raised'].append([idx, phase, repr(e)])
+            return
+        key = [repr(ex.returned), type(ex.raised).__name__ if ex.raised is not None else None, ex.process is proc]
+        if key not in aw['outcomes']:
+            aw['outcomes'].append(key)
+        ca, ea = ex.process_created_at, ex.process_exited_at
+        if not (isinstance(ca, datetime) and isinstance(ea, datetime) and ca <= ea):
+            aw['times_bad'] += 1
+
+    async def storm():
+        import multiprocessing.connection as mpc
+        loop = asyncio.get_running_loop()
+        while not os.path.exists(spec['started']) and not waiter.done():
+            await asyncio.sleep(0.001)
+
+        async def after_exit():
+            await loop.run_in_executor(None, mpc.wait, [proc.sentinel], 30)
+            await one('after-process-exit')
+        extra.append(asyncio.ensure_future(after_exit()))
+        n = 0
+        while not waiter.done() and n < 300000:
+            # read-only look at the helper task: has `_run` finished although the first awaiter has not been resumed yet?
+            extra.append(asyncio.ensure_future(one('task-done-window' if running._task.done() else 'before-completion')))
+            n += 1
+            await asyncio.sleep(0)
+        for _ in range(3):
+            extra.append(asyncio.ensure_future(one('just-after-first-result')))
+            await asyncio.sleep(0)
+        await asyncio.sleep(0.2)
+        extra.append(asyncio.ensure_future(one('much-later')))
+        await asyncio.gather(*extra, return_exceptions=True)
+
+    storm_task = asyncio.ensure_future(storm()) if scn.get('awaiters') == 'storm' else None
     try:
         exited = await waiter
         obs['await_raised'] = None
@@ -144,8 +195,18 @@ async def scenario(scn: dict, obs: dict, tmp: Path) -> None:
     me_tasks = {me, sender, waiter}
     obs['tasks_left'] = sorted(
         (t.get_coro().__qualname__ if t.get_coro() else t.get_name())
-        for t in asyncio.all_tasks() if t not in me_tasks and t not in tasks_before and not t.done())
+        for t in asyncio.all_tasks() if t not in me_tasks and t not in tasks_before and not t.done()
+        and not (t.get_coro() is not None and t.get_coro().__qualname__.startswith('scenario.')))
     obs['threads_at_exit'] = thread_names()
+    if storm_task is not None:
+        try:
+            await asyncio.wait_for(storm_task, 8)
+        except BaseException as e:
+            aw['storm_error'] = repr(e)
+        aw['closing'] = True
+        obs['awaiters'] = {k: v for k, v in aw.items() if k != 'closing'}
+        extra.clear()
+        storm_task = None
     pop = proc._popen
     obs['reaped_before_query'] = pop is not None and pop.returncode is not None
     obs['exitcode'] = proc.exitcode
